@@ -154,3 +154,40 @@ extern "C" void h_reenter_observe()
     vp_assert(runs == 1 && got == v, "C13 exactly once with the value");
     vp_assert(finishedInside, "C13 the task is finished (no second completion possible) while its continuation runs");
 }
+
+// ---- release of continuations and captures (no leak), for all three finish() overloads ---------------------------------------
+// The continuation captures a copy of its OWN task (the reference cycle QXmppTask::then guards against by clearing the stored
+// continuation after it ran) and a counted Tracker. After every handle is gone nothing may be left alive.
+static int alive;
+struct Tracker { Tracker() { alive++; } Tracker(const Tracker &) { alive++; } Tracker(Tracker &&) noexcept { alive++; } ~Tracker() { alive--; } };
+template<typename T, typename U> static void releaseCheck()
+{
+    static char ctxbuf[16];
+    QObject *ctx = reinterpret_cast<QObject *>(ctxbuf);
+    int v = vp_int();
+    bool attachFirst = vp_case_bool(0);
+    {
+        QXmppPromise<T> p; QXmppTask<T> t = p.task();
+        Tracker tr; QXmppTask<T> self = t;
+        auto cont = [tr, self](T &&x) { runs++; got = (int)x; };
+        if (attachFirst) { t.then(ctx, cont); p.finish(U(v)); } else { p.finish(U(v)); t.then(ctx, cont); }
+        vp_assert(runs == 1 && got == (int)T(U(v)), "C13 exactly once with the value (converting / same-type finish)");
+    }
+    vp_assert(alive == 0, "C13 continuation and its captures are released once all handles are dropped (no leak)");
+}
+extern "C" void h_release_conv() { releaseCheck<long, int>(); }      // finish(U&&) with U convertible to T, U != T
+extern "C" void h_release_same() { releaseCheck<int, int>(); }       // finish(T&&)
+extern "C" void h_release_void()
+{
+    static char ctxbuf[16];
+    QObject *ctx = reinterpret_cast<QObject *>(ctxbuf);
+    bool attachFirst = vp_case_bool(0);
+    {
+        QXmppPromise<void> p; QXmppTask<void> t = p.task();
+        Tracker tr; QXmppTask<void> self = t;
+        auto cont = [tr, self]() { runs++; };
+        if (attachFirst) { t.then(ctx, cont); p.finish(); } else { p.finish(); t.then(ctx, cont); }
+        vp_assert(runs == 1, "C13 exactly once (void)");
+    }
+    vp_assert(alive == 0, "C13 continuation and its captures are released once all handles are dropped (no leak, void)");
+}
